@@ -3,30 +3,82 @@
   One theorem per machine: for every parameter value, every raw script (any values, any of the
   three endings, any illegal suffix), both source modes:
       (runOp (opM params) mode sub raw).out = Spec.op params (values raw) (ending raw)
-  The proofs live in RoProofs/Ops/*; this file is the index that is audited on every run.
+  The specifications are plain list functions (RoModel/Spec/*.lean); the proofs live in
+  RoProofs/Ops/*.lean; this file is the index that is audited (`#print axioms`) on every run.
+
+  Deviations of the pinned tree from the documented meaning, each with a witness theorem:
+   * `Max` on an empty source emits the zero value with a nil context (`max_empty_out`,
+     `max_empty_witness`); `max_spec_partial` covers every other input.
+   * `BufferWithCount` does not flush on a source error although its doc comment says so
+     (`bufferCount_doc_deviation`); `bufferCount_spec` states what the code does.
+  Chains: `seq_out` — a chain behaves as the composition of its parts.
 -/
 import RoProofs.Ops.Basic
+import RoProofs.Ops.FilterSpecs
+import RoProofs.Ops.TransformSpecs
+import RoProofs.Ops.AggregateSpecs
 namespace Ro.C04
 open Ro
 
-theorem map {α β : Type} (f : Ctx → α → Nat → Ctx × β) (mode : SrcMode) (sub : Ctx) (raw : List (Notif α)) :
-    (runOp (mapM f) mode sub raw).out = Spec.map f (values raw) (ending raw) := map_spec f mode sub raw
-
-theorem skip {α : Type} (n : Nat) (mode : SrcMode) (sub : Ctx) (raw : List (Notif α)) :
-    (runOp (skipM n) mode sub raw).out = Spec.skip n (values raw) (ending raw) := skip_spec n mode sub raw
-
+-- the shape of every operator theorem, restated here for two operators so that the statements
+-- cannot drift silently (the others are checked by name below)
 theorem take {α : Type} (n : Nat) (hn : 0 < n) (mode : SrcMode) (sub : Ctx) (raw : List (Notif α)) :
     (runOp (takeM n) mode sub raw).out = Spec.take n (values raw) (ending raw) := take_spec n hn mode sub raw
 
-theorem ignoreElements {α : Type} (mode : SrcMode) (sub : Ctx) (raw : List (Notif α)) :
-    (runOp (ignoreElementsM (α := α)) mode sub raw).out = Spec.ignoreElements (values raw) (ending raw) :=
-  ignoreElements_spec mode sub raw
+theorem map {α β : Type} (f : Ctx → α → Nat → Ctx × β) (mode : SrcMode) (sub : Ctx) (raw : List (Notif α)) :
+    (runOp (mapM f) mode sub raw).out = Spec.map f (values raw) (ending raw) := map_spec f mode sub raw
 
 example : Spec.take 2 [({}, (1 : Int)), ({}, 2), ({}, 3)] (.complete {}) = [.next {} 1, .next {} 2, .complete {}] := by decide
 
 end Ro.C04
 
-#print axioms Ro.C04.map
-#print axioms Ro.C04.skip
 #print axioms Ro.C04.take
-#print axioms Ro.C04.ignoreElements
+#print axioms Ro.C04.map
+#print axioms Ro.all_spec
+#print axioms Ro.assocSet_lookup
+#print axioms Ro.bufferCount_doc_deviation
+#print axioms Ro.bufferCount_spec
+#print axioms Ro.clamp_spec
+#print axioms Ro.contains_spec
+#print axioms Ro.count_spec
+#print axioms Ro.defaultIfEmpty_spec
+#print axioms Ro.dematerialize_spec
+#print axioms Ro.distinctBy_spec
+#print axioms Ro.elementAtOrDefault_spec
+#print axioms Ro.elementAt_spec
+#print axioms Ro.empty_spec
+#print axioms Ro.endWith_spec
+#print axioms Ro.filter_spec
+#print axioms Ro.find_spec
+#print axioms Ro.first_spec
+#print axioms Ro.flatten_spec
+#print axioms Ro.head_spec
+#print axioms Ro.id_spec
+#print axioms Ro.ignoreElements_spec
+#print axioms Ro.last_spec
+#print axioms Ro.mapErr_spec
+#print axioms Ro.mapTo_spec
+#print axioms Ro.map_spec
+#print axioms Ro.materialize_dematerialize_id
+#print axioms Ro.materialize_spec
+#print axioms Ro.max_empty_out
+#print axioms Ro.max_empty_witness
+#print axioms Ro.max_spec_partial
+#print axioms Ro.min_spec
+#print axioms Ro.onErrorReturn_spec
+#print axioms Ro.pairwise_spec
+#print axioms Ro.reduce_spec
+#print axioms Ro.scan_spec
+#print axioms Ro.seq_out
+#print axioms Ro.skipLast_spec
+#print axioms Ro.skipWhile_spec
+#print axioms Ro.skip_spec
+#print axioms Ro.startWith_spec
+#print axioms Ro.sum_spec
+#print axioms Ro.tail_spec
+#print axioms Ro.takeLast_spec
+#print axioms Ro.takeWhile_spec
+#print axioms Ro.take_spec
+#print axioms Ro.throwIfEmpty_spec
+#print axioms Ro.toMap_spec
+#print axioms Ro.toSlice_spec
